@@ -213,7 +213,7 @@ PROPS = dict(
         scope='REDUCED SCOPE: the ping-flag protocol of MqttState v4+v5 only (outgoing_ping, handle_incoming_pingresp, clean): an unanswered PINGREQ is reported at the next ping, an answered one never is, collision timeout after two pings',
         residual='"at least once per keep-alive interval", "no later than the second interval", keep-alive zero never pings, connect timeout: all live in tokio::select!/time::timeout branches; no contract within reach of Verus or Kani expresses virtual time — NOT decided',
         trusted_base=_CLIENT_STATE_VERUS + _CLIENT_STATE_TRUSTED + ['std::time::Instant::now stubbed (FFI clock)'],
-        assumptions=['timing clauses of C18 are not covered'],
+        assumptions=['timing clauses of C18 are not covered: a seeded change inside the async select! arm (seeded/C18-N2B: keep-alive timer re-armed after every write, so a busy client never pings) is NOT detected by this check'],
     ),
     C09=dict(
         verus=['window', 'tracker'], kani=['rumqttd'], native=['rumqttd'],
